@@ -92,6 +92,7 @@ type Sched struct {
 	opCount  int // completed connection operations (dial, write, read)
 	FaultK   int // the k-th connection operation fails (1-based); 0 none
 	FailAfterClose bool // writes fail once a close frame was written
+	FailFrom bool // every connection operation from the FaultK-th on fails
 	closeFrameWritten bool
 
 	Frames     []Frame
@@ -371,7 +372,7 @@ func (s *Sched) forwarder(idx int) graphql.ForwardDataFunction {
 // faultFor decides, at the moment a connection operation is released, whether it fails.
 func (s *Sched) faultFor(isWrite bool) error {
 	s.opCount++
-	if s.FaultK > 0 && s.opCount == s.FaultK {
+	if s.FaultK > 0 && (s.opCount == s.FaultK || (s.FailFrom && s.opCount > s.FaultK)) {
 		return errFault
 	}
 	if isWrite && s.FailAfterClose && s.closeFrameWritten {
